@@ -220,7 +220,10 @@ func (p *Pset) UnsignedTx() (*transaction.Transaction, error) {
 		if in.IssuanceAssetEntropy != nil {
 			issuanceValue := in.IssuanceValueCommitment
 			if issuanceValue == nil {
-				issuanceValue, _ = elementsutil.ValueToBytes(in.IssuanceValue)
+				issuanceValue = []byte{0x00}
+				if in.IssuanceValue > 0 {
+					issuanceValue, _ = elementsutil.ValueToBytes(in.IssuanceValue)
+				}
 			}
 			tokenValue := in.IssuanceInflationKeysCommitment
 			if tokenValue == nil {
@@ -237,6 +240,7 @@ func (p *Pset) UnsignedTx() (*transaction.Transaction, error) {
 				TokenAmount:        tokenValue,
 			}
 		}
+		txIn.IsPegin = in.PeginWitness != nil
 
 		tx.AddInput(txIn)
 	}
